@@ -72,6 +72,7 @@ DONE.update({
 })
 DONE["C04"] = (DONE["C04"][0], DONE["C04"][1], DONE["C04"][2] + "; plus loom models of a writer parked on credit against racing grants (m1,m3,m8,m11) and of the bridge parked on credit (m19)", DONE["C04"][3], DONE["C04"][4])
 DONE["C06"] = (DONE["C06"][0], DONE["C06"][1], DONE["C06"][2] + "; plus loom models of an abort racing a writer parked on credit (m2,m6,m9)", DONE["C06"][3], DONE["C06"][4])
+DONE["C02"] = (DONE["C02"][0], DONE["C02"][1], DONE["C02"][2] + "; plus loom models of the real write path under racing grants (m3,m8,m12)", DONE["C02"][3], DONE["C02"][4])
 DONE["C13"] = (DONE["C13"][0], DONE["C13"][1], DONE["C13"][2] + "; plus loom models of the bridge parked on credit against a racing grant / close (m19,m20,m21)", DONE["C13"][3], DONE["C13"][4])
 DONE["C03"] = (DONE["C03"][0], DONE["C03"][1], DONE["C03"][2] + "; plus loom models of credit conservation under racing grants (m1,m3,m4,m8)", DONE["C03"][3], DONE["C03"][4])
 
@@ -124,7 +125,7 @@ def main():
             {"name": "psim", "path": "harness/vmux", "serves_properties": [p for p in ids if p in DONE and DONE[p][0] == "psim"], "kind_free_text": "controlled-scheduler stateless exploration of the real multiplexor (hand-rolled executor + in-memory WebSocket)"},
             {"name": "enum", "path": "harness/vmux, harness/vapp", "serves_properties": [p for p in ids if p in DONE and DONE[p][0].startswith("enum")], "kind_free_text": "bounded-exhaustive enumeration against reference models"},
             {"name": "e2e", "path": "harness/vapp", "serves_properties": [p for p in ids if p in DONE and "e2e" in DONE[p][0]], "kind_free_text": "complete scenario matrices on real loopback sockets under the real runtime (schedules not owned; level exploration)"},
-            {"name": "loom", "path": "tools/loomrun.py + /repo/penguin-mux/src/verif_loom.rs", "serves_properties": [p for p in ids if p in DONE and DONE[p][0] == "loom"] + ["C03", "C04", "C06", "C07", "C13"], "kind_free_text": "loom model checking of atomics-level interleavings (C12; additional parts of C03, C04, C06, C07, C13)"},
+            {"name": "loom", "path": "tools/loomrun.py + /repo/penguin-mux/src/verif_loom.rs", "serves_properties": [p for p in ids if p in DONE and DONE[p][0] == "loom"] + ["C02", "C03", "C04", "C06", "C07", "C13"], "kind_free_text": "loom model checking of atomics-level interleavings (C12; additional parts of C02, C03, C04, C06, C07, C13)"},
         ],
         "checks": checks,
         "not_applicable": [{"property_id": p, "reason": REASON_PENDING} for p in ids if p not in DONE],
